@@ -1039,6 +1039,110 @@ theorem startupKeys_sub (cfg : List Key) (d : Disk) (k : Key) (h : k ∈ startup
   · cases h
   · exact (List.mem_filter.mp h).1
 
+/-! ### completeness of the revocation path -/
+
+theorem lookup_append_other (cur : List TA) (x : TA) (t : Nat) (h : x.key.tag ≠ t) :
+    lookup (cur ++ [x]) t = lookup cur t := by
+  unfold lookup
+  rw [List.find?_append]
+  cases hf : List.find? (fun ta => ta.key.tag == t) cur with
+  | some y => simp
+  | none =>
+    have : (x.key.tag == t) = false := by simpa using h
+    simp [List.find?_cons, this]
+
+/-- a fetched key that carries no REVOKE bit and shares no tag / material with the
+revocation under way leaves everything that revocation looks at untouched. -/
+theorem procFetched_bystander (staged : List Key) (ro : Bool) (now : Nat) (s : Loop) (q k : Key)
+    (hq : q.revoke = false) (h1 : q.tag ≠ tagSub128 k.tag) (h2 : q.tag ≠ k.tag) :
+    (procFetched staged ro now s q).tomb = s.tomb ∧
+    (procFetched staged ro now s q).revoked = s.revoked ∧
+    lookup (procFetched staged ro now s q).cur (tagSub128 k.tag) = lookup s.cur (tagSub128 k.tag) ∧
+    sameAsExisting (procFetched staged ro now s q).cur k = sameAsExisting s.cur k := by
+  rcases procFetched_cases staged ro now s q with h | ⟨_, _, _, _, _, hr, _⟩ | ⟨_, _, _, h⟩
+  · rw [h]; exact ⟨rfl, rfl, rfl, rfl⟩
+  · rw [hq] at hr; cases hr
+  · rw [h]
+    refine ⟨rfl, rfl, lookup_append_other _ _ _ h1, ?_⟩
+    unfold sameAsExisting
+    rw [lookup_append_other _ _ _ h2]
+
+/-- **the loop honours the revocation**: if, when the loop starts, the staged
+REVOKE-flagged key `k` matches a Valid or Missing entry at `tag - 128` and no
+other fetched key interferes (none carries the REVOKE bit, none has one of the
+two tags), the material of `k` is among the revocations of the run. -/
+theorem foldl_procFetched_honours (staged : List Key) (ro : Bool) (now : Nat) (ks : List Key) (s : Loop)
+    (k : Key) (old : TA) (hk : k ∈ ks)
+    (hothers : ∀ q ∈ ks, q ≠ k → q.revoke = false ∧ q.tag ≠ tagSub128 k.tag ∧ q.tag ≠ k.tag)
+    (hr : k.revoke = true) (ht : s.tomb.contains k.mat = false) (hne : sameAsExisting s.cur k = false)
+    (hl : lookup s.cur (tagSub128 k.tag) = some old) (hst : isTrusted old.st = true)
+    (hs : sameKeyExceptRevoke old.key k = true) (hstaged : staged.contains k = true) :
+    k.mat ∈ (ks.foldl (procFetched staged ro now) s).revoked := by
+  induction ks generalizing s with
+  | nil => cases hk
+  | cons q rest ih =>
+    simp only [List.foldl_cons]
+    by_cases hqk : q = k
+    · subst hqk
+      have hin : q.mat ∈ (procFetched staged ro now s q).revoked := by
+        unfold procFetched
+        simp only [ht, hne, hr, hl, hst, hs, hstaged, Bool.false_eq_true, if_false, if_true, Bool.and_self]
+        exact List.mem_append_right _ (by simp)
+      -- revocations only accumulate
+      have mono : ∀ (l : List Key) (s' : Loop), q.mat ∈ s'.revoked →
+          q.mat ∈ (l.foldl (procFetched staged ro now) s').revoked := by
+        intro l
+        induction l with
+        | nil => intro s' h; exact h
+        | cons a t iht =>
+          intro s' h
+          simp only [List.foldl_cons]
+          apply iht
+          rcases procFetched_cases staged ro now s' a with h1 | ⟨_, _, _, _, _, _, h1⟩ | ⟨_, _, _, h1⟩
+          · rw [h1]; exact h
+          · rw [h1]; exact List.mem_append_left _ h
+          · rw [h1]; exact h
+      exact mono rest _ hin
+    · obtain ⟨a1, a2, a3⟩ := hothers q (by simp) hqk
+      obtain ⟨b1, _, b3, b4⟩ := procFetched_bystander staged ro now s q k a1 a2 a3
+      apply ih
+      · rcases List.mem_cons.mp hk with h | h
+        · exact absurd h.symm hqk
+        · exact h
+      · intro q' hq' hne'; exact hothers q' (List.mem_cons_of_mem _ hq') hne'
+      · rw [b1]; exact ht
+      · rw [b4]; exact hne
+      · rw [b3]; exact hl
+
+/-- a SEP key of the answer whose tag no other SEP key of the answer has is in `kskFetched`. -/
+theorem mem_fetchedMap_of (ks : List Key) (k : Key) (hk : k ∈ ks) (hsep : k.sep = true)
+    (huniq : ∀ q ∈ ks, q.sep = true → q ≠ k → q.tag ≠ k.tag) : k ∈ fetchedMap ks := by
+  unfold fetchedMap
+  suffices ∀ acc : List Key, (k ∈ acc ∨ k ∈ ks) →
+      k ∈ ks.foldl (fun acc q => if q.sep then acc.filter (fun y => y.tag != q.tag) ++ [q] else acc) acc from
+    this [] (Or.inr hk)
+  clear hk
+  induction ks with
+  | nil => intro acc h; rcases h with h | h; exact h; cases h
+  | cons q rest ih =>
+    intro acc h
+    simp only [List.foldl_cons]
+    apply ih (fun q' hq' => huniq q' (List.mem_cons_of_mem _ hq'))
+    by_cases hqk : q = k
+    · subst hqk
+      left
+      simp [hsep]
+    · rcases h with h | h
+      · left
+        by_cases hqs : q.sep = true
+        · have := huniq q (by simp) hqs hqk
+          simp only [hqs, if_true]
+          exact List.mem_append_left _ (List.mem_filter.mpr ⟨h, by simpa using (fun e => this e.symm)⟩)
+        · simp only [hqs, Bool.false_eq_true, if_false]; exact h
+      · rcases List.mem_cons.mp h with h' | h'
+        · exact absurd h'.symm hqk
+        · exact Or.inr h'
+
 /-! ## Specification vocabulary of `Props/C09.lean` and the lemmas about it
 
 `Barred`, `HistOK` (revocation records), `RevocationOf` (what a revocation-only
